@@ -105,6 +105,19 @@ func vhC13Repeat() {
 		return
 	}
 	vAssert(vShapeEq([]int(calc), []int(res.Shape())), "calc-eq-exec")
+	// ... and both equal the arithmetic definition (numpy.repeat): execution takes its result shape from the calculator, so
+	// agreement alone would not notice a calculator that is wrong
+	if len(shape) >= 1 && axis >= 0 && axis < len(shape) {
+		want := vCopyInts(shape)
+		if nrep == 1 {
+			want[axis] = shape[axis] * reps[0]
+		} else {
+			want[axis] = tot
+		}
+		if tot > 0 || nrep == 1 {
+			vAssert(vShapeEq(want, []int(res.Shape())), "repeat-shape-definition")
+		}
+	}
 }
 
 // vhC13Concat: Shape.Concat vs Concat with symbolic operand dims (solver-enumerated) and symbolic axis.
